@@ -315,6 +315,11 @@ def _malformed_classes():
         ("diffusion_batch_mismatch", lambda: base(sde=plain(g=g_badbatch))),
         ("scalar_noise_two_channels", lambda: base(
             sde=plain(noise_type="scalar", g=g3d), bm=torchsde.BrownianInterval(0.0, 0.5, size=(2, 2), entropy=1))),
+        ("scalar_noise_g_prod_only_two_channel_bm", lambda: base(
+            sde=plain(noise_type="scalar", g=None, g_prod=lambda t, y, v: 0.1 * y * v),
+            bm=torchsde.BrownianInterval(0.0, 0.5, size=(2, 2), entropy=1, levy_area_approximation="space-time"))),
+        ("ts_requires_grad_other_dtype", lambda: base(ts=torch.tensor([0.0, 0.5], dtype=torch.float32,
+                                                                    requires_grad=True))),
         ("missing_drift", lambda: base(sde=plain(f=None))),
         ("missing_diffusion", lambda: base(sde=plain(g=None))),
         ("missing_noise_type", lambda: base(sde=plain(noise_type=None))),
